@@ -59,6 +59,12 @@ func (r *KeyRing) copyKey(other *asn1.Key) (*asn1.Key, error) {
 		return nil, api.ErrInvalidCryptoperiod
 	}
 	if len(other.Data) == 0 {
+		// Destroyed keys stay in the key ring without any data, they are copied as is.
+		if api.KeyState(other.State) == api.KeyDestroyed {
+			key := *other
+			key.Data = make([]asn1.KeyData, 0)
+			return &key, nil
+		}
 		return nil, api.ErrNoKeyData
 	}
 	key := *other
